@@ -116,6 +116,12 @@ func runUndelegate(ctx *action.Context, tx action.RawTx) (bool, action.Response)
 		return helpers.LogAndReturnFalse(ctx.Logger, net_delg.ErrGettingActiveDelgAmount, ud.Tags(), err)
 	}
 
+	// the amount must be a non-negative OLT amount: a negative amount raised the active delegation
+	// and the pool and was debited from the delegator at maturity without a balance check; a
+	// currency other than OLT ends in logger.Fatal inside Coin.Minus
+	if !ud.Amount.IsValid(ctx.Currencies) || ud.Amount.Currency != "OLT" {
+		return helpers.LogAndReturnFalse(ctx.Logger, action.ErrInvalidAmount, ud.Tags(), errors.New("invalid undelegate amount"))
+	}
 	undelegateCoin := ud.Amount.ToCoin(ctx.Currencies)
 	// cut the amount from active store
 	remainCoin, err := delegationCoin.Minus(undelegateCoin)
